@@ -204,7 +204,7 @@ STR_POOLS = {
              "0b8a22ca80ad4df585acfa49c44b7ede", "1" * 32, "urn:uuid:0b8a22ca-80ad-4df5-85ac-fa49c44b7ede", "12345"],
     "email": ["test@example.com", "a@b", "@", "x@y@z", "no-at-sign", "first.last@sub.domain.org"],
     "geom": ["POINT (1 2)", "POINT (-92 42)", "LINESTRING (0 0, 1 1)", "POLYGON ((0 0, 1 0, 1 1, 0 0))", "POINT EMPTY",
-             "POINT (1", "GEOMETRYCOLLECTION EMPTY"],
+             "POINT (1", "GEOMETRYCOLLECTION EMPTY", "CIRCULARSTRING (0 0, 1 1, 2 0)", "MULTICURVE EMPTY"],
     "text": ["hello", "a b", "", " ", "İ", "ß", "None", "null", "NA", "\x00", "x" * 300, "j", "i", "e", "-", "."],
 }
 
